@@ -7,7 +7,7 @@ func NewStringEnumSchema(validValues map[string]*DisplayValue) *StringEnumSchema
 	return &StringEnumSchema{
 		TypedStringEnumSchema[string]{
 			EnumSchema[string, string]{
-				ValidValuesMap: validValues,
+				ValidValuesMap: withDisplayValues(validValues),
 			},
 		},
 	}
@@ -18,7 +18,7 @@ func NewStringEnumSchema(validValues map[string]*DisplayValue) *StringEnumSchema
 func NewTypedStringEnumSchema[T ~string](validValues map[T]*DisplayValue) *TypedStringEnumSchema[T] {
 	return &TypedStringEnumSchema[T]{
 		EnumSchema[string, T]{
-			ValidValuesMap: validValues,
+			ValidValuesMap: withDisplayValues(validValues),
 		},
 	}
 }
